@@ -444,6 +444,9 @@ def compare_loaded(chk, D, out, files, key, info):
         ab = next(it)
         if D.flat(ab) != [t for r in files["allbases"] for t in r]:
             chk.violation(key + ":all-bases", dict(info, written=files["allbases"][:4], got=D.flat(ab)[:8]))
+        elif np.asarray(ab).ndim < 1 or len(np.asarray(ab)) not in (len(files["allbases"]), len(D.flat(ab))):
+            # one entry per listed basis (a list of ONE basis is still a list: it is iterated over by KL / NLL)
+            chk.violation(key + ":all-bases:shape", dict(info, written=files["allbases"][:4], shape=list(np.asarray(ab).shape)))
     return D.as_2d(smp, nrows, ncols), D.as_2d(bs, nrows, ncols), collapsed
 
 
